@@ -127,6 +127,11 @@ Proof.
   - now apply (cleanup_Inv path_eqb path_eqb_spec).
   - exact HI.
   - exact HI.
+  - unfold mk_fun. destruct (same_set path_eqb sd_order (args_start (map fst args))); [|exact HI].
+    destruct (find_tasks path_eqb m sd_order start_order) as [[tl m3]|e] eqn:Ef; [|exact HI].
+    destruct (find_tasks_inv _ _ _ _ _ Ef) as (L & EL & _).
+    destruct (find_taskids_spec path_eqb path_eqb_spec m sd_order start_order L m3 HI EL) as (_ & _ & _ & HI3 & _).
+    destruct (exec_fun tl args s) as [[s2 tr] er]. exact HI3.
 Qed.
 
 (* every reachable manager satisfies the invariant *)
